@@ -186,6 +186,37 @@ theorem quiescent_probe_admitted (cfg : Cfg) (hwf : cfg.wf = true) (events : Lis
   have := hroom q hq
   omega
 
+/-- On ANY observed history that satisfies the Spec — the model's or the implementation's — once every transaction
+    has ended (none is open: each one's last event is a response, a proxy error, a refusal or an early answer)
+    every concurrent quota's set is empty. -/
+theorem quiescent_sets_empty (cfg : Cfg) (obs : List Obs) (h : holds cfg obs = true)
+    (hended : ∀ r, lastOpen r obs false = false) (q : Nat) (hc : cfg.isConc q = true) :
+    lastSnap cfg (Tracker.init cfg) obs q = [] := by
+  apply List.eq_nil_iff_forall_not_mem.mpr
+  intro m hm
+  have := members_open cfg obs (Tracker.init cfg) (fun _ => false) h
+    (by intro q _ m hm; simp [Tracker.init] at hm) q hc m hm
+  rw [hended m.req] at this
+  cases this
+
+/-- (iii) for model histories: no event in a defect class, every transaction ended, every consulted quota has
+    `max > 0` — then a fresh probe is not refused. -/
+theorem quiescent_history_probe_admitted (cfg : Cfg) (hwf : cfg.wf = true) (events : List Event)
+    (hclean : clean cfg (run cfg (S.init cfg) events) = true)
+    (hended : ∀ r, lastOpen r (run cfg (S.init cfg) events) false = false)
+    (hmax : ∀ q ∈ cfg.concPath, 0 < cfg.max q) (r : Nat) (post : Bool) :
+    (reqEvent cfg (final cfg (S.init cfg) events) r post).2 ≠ .refused := by
+  apply quiescent_probe_admitted cfg hwf events r post
+  intro q hq
+  have hc : cfg.isConc q = true := by
+    obtain ⟨q0, _, hc0, hq'⟩ := mem_concPath cfg q (List.contains_iff_mem.mpr hq)
+    exact (wf_chain cfg hwf q0 hc0).2 q hq'
+  have hholds := holds_of_judge cfg _ _ (judge_run cfg hwf events _ _ (Inv.init cfg) (Tracks.init cfg)) hclean
+  have := quiescent_sets_empty cfg _ hholds hended q hc
+  rw [lastSnap_run cfg events _ _ rfl] at this
+  rw [this]
+  exact hmax q hq
+
 /-! ## The connection: the judge predicate holds of every model run -/
 
 /-- For every well-formed configuration and every event history, the first event (if any) whose observation fails a
@@ -247,6 +278,14 @@ example : dueCount (final ex2 (S.init ex2) [.req 1 false, .req 2 false, .adv 5])
 
 /-- `quiescent_probe_admitted`: after request, response the set has room and the probe is admitted. -/
 example : (reqEvent exC (final exC (S.init exC) [.req 1 false, .resp 1]) 2 false).2 = .admitted := by decide
+
+/-- `quiescent_sets_empty` / `quiescent_history_probe_admitted`: a history in which four transactions end in the four
+    ways (response, early answer, proxy error, refusal) and none is left open. -/
+example : clean exC (run exC (S.init exC) [.req 1 false, .req 2 false, .resp 1, .req 2 true, .req 3 false, .err 3]) = true ∧
+    (∀ r ∈ [1, 2, 3, 4], lastOpen r (run exC (S.init exC)
+      [.req 1 false, .req 2 false, .resp 1, .req 2 true, .req 3 false, .err 3]) false = false) ∧
+    lastOpen 3 (run exC (S.init exC) [.req 1 false, .req 2 false, .resp 1, .req 2 true, .req 3 false]) false = true := by
+  decide
 
 /-- `c02_judge` / `c02_holds_partial`: a clean non-trivial history (admit, refuse, respond, early answer, proxy error,
     expiry + GC) on which the whole Spec holds; and the three witnesses are classified, not unclassified. -/
